@@ -1,7 +1,14 @@
+#![cfg_attr(kmertools_verif, allow(unused_imports))]
 use indicatif::ProgressBar;
 use kmer::{minimiser::MinimiserGenerator, numeric_to_kmer};
 use ktio::seq::*;
+#[cfg(not(kmertools_verif))]
 use scc::HashMap as SccMap;
+#[cfg(kmertools_verif)]
+#[path = "../../counter/src/verif_shim.rs"]
+mod verif_shim;
+#[cfg(kmertools_verif)]
+use verif_shim::SccMap;
 use std::{
     fs,
     io::{BufReader, BufWriter, Read, Write},
@@ -9,6 +16,8 @@ use std::{
 };
 
 pub fn bin_sequences(wsize: usize, msize: usize, in_path: &str, out_path: &str, threads: usize) {
+    #[cfg(kmertools_verif)]
+    use ktio::verif::sync::Mutex;
     let mut threads = threads;
     if threads == 0 {
         threads = rayon::current_num_threads();
@@ -27,6 +36,8 @@ pub fn bin_sequences(wsize: usize, msize: usize, in_path: &str, out_path: &str, 
     let result_arc = Arc::new(result);
     let total_records = Arc::new(AtomicU64::new(0));
 
+    #[cfg(kmertools_verif)]
+    ktio::verif::scope_begin("min.m2s", threads, threads);
     pool.scope(|scope| {
         for _ in 0..threads {
             let records_arc_clone = Arc::clone(&records_arc);
@@ -35,12 +46,16 @@ pub fn bin_sequences(wsize: usize, msize: usize, in_path: &str, out_path: &str, 
             let pbar_clone = pbar.clone();
 
             scope.spawn(move |_| {
+                #[cfg(kmertools_verif)]
+                ktio::verif::point("task.start", 0);
                 loop {
                     let record = {
                         total_records_clone.fetch_add(1, std::sync::atomic::Ordering::Relaxed);
                         records_arc_clone.lock().unwrap().next()
                     };
                     if let Some(record) = record {
+                        #[cfg(kmertools_verif)]
+                        ktio::verif::point("min.took", record.n as u64);
                         let mgen = if wsize == 0 {
                             MinimiserGenerator::new(&record.seq, record.seq.len().max(msize), msize)
                         } else {
@@ -65,6 +80,8 @@ pub fn bin_sequences(wsize: usize, msize: usize, in_path: &str, out_path: &str, 
                         break;
                     }
                 }
+                #[cfg(kmertools_verif)]
+                ktio::verif::point("task.exit", 0);
             });
         }
     });
@@ -84,6 +101,8 @@ pub fn bin_sequences(wsize: usize, msize: usize, in_path: &str, out_path: &str, 
 }
 
 pub fn seq_to_min(wsize: usize, msize: usize, in_path: &str, out_path: &str, threads: usize) {
+    #[cfg(kmertools_verif)]
+    use ktio::verif::sync::Mutex;
     let mut threads = threads;
     if threads == 0 {
         threads = rayon::current_num_threads();
@@ -102,6 +121,8 @@ pub fn seq_to_min(wsize: usize, msize: usize, in_path: &str, out_path: &str, thr
     let outf = fs::File::create(out_path).unwrap();
     let buff = Arc::new(Mutex::new(BufWriter::new(outf)));
 
+    #[cfg(kmertools_verif)]
+    ktio::verif::scope_begin("min.s2m", threads, threads);
     pool.scope(|scope| {
         for _ in 0..threads {
             let records_arc_clone = Arc::clone(&records_arc);
@@ -110,12 +131,16 @@ pub fn seq_to_min(wsize: usize, msize: usize, in_path: &str, out_path: &str, thr
             let buff_clone = Arc::clone(&buff);
 
             scope.spawn(move |_| {
+                #[cfg(kmertools_verif)]
+                ktio::verif::point("task.start", 0);
                 loop {
                     let record = {
                         total_records_clone.fetch_add(1, std::sync::atomic::Ordering::Relaxed);
                         records_arc_clone.lock().unwrap().next()
                     };
                     if let Some(record) = record {
+                        #[cfg(kmertools_verif)]
+                        ktio::verif::point("min.took", record.n as u64);
                         let mgen = if wsize == 0 {
                             MinimiserGenerator::new(&record.seq, record.seq.len().max(msize), msize)
                         } else {
@@ -147,6 +172,8 @@ pub fn seq_to_min(wsize: usize, msize: usize, in_path: &str, out_path: &str, thr
                         break;
                     }
                 }
+                #[cfg(kmertools_verif)]
+                ktio::verif::point("task.exit", 0);
             });
         }
     });
